@@ -23,7 +23,7 @@ def jsonable(x):
     return repr(x)
 
 
-def run_case(case, sched_seed=None, choose=None):
+def run_case(case, sched_seed=None, choose=None, simultaneous=0.2):
     """build + run one case; -> record dict (JSON-able apart from transient fields)"""
     rec = dict(case=case, sched_seed=sched_seed, runs=[], build_error=None)
     try:
@@ -33,8 +33,12 @@ def run_case(case, sched_seed=None, choose=None):
         return rec
     rng = random.Random(sched_seed) if sched_seed is not None else None
     for ti, th in enumerate(thunks):
-        ctl = tz.Ctl(choose=None if choose is None else [list(c) for c in choose[ti]], fails={sched_cases.node_name(i) for i in case["fails"]}, rng=rng)
-        st = tz.run_controlled(th, ctl, is_async=case["is_async"])
+        ctl = tz.Ctl(choose=None if choose is None else [list(c) for c in choose[ti]], fails={sched_cases.node_name(i) for i in case["fails"]}, rng=rng, simultaneous=simultaneous)
+        tz.tawazi.cfg.TAWAZI_PROFILE_ALL_NODES = bool(case.get("profile"))
+        try:
+            st = tz.run_controlled(th, ctl, is_async=case["is_async"])
+        finally:
+            tz.tawazi.cfg.TAWAZI_PROFILE_ALL_NODES = False
         trace = list(ctl.trace)
         run = dict(status=st[0], value=jsonable(st[1]), choices=ctl.choices, broken=ctl.broken, segs=[])
         # split the full trace (with worker events) per execution for the monitors
